@@ -60,8 +60,8 @@ impl<'a, P: AsyncWrite + Unpin + 'a> Future for WriteAll<'a, P> {
                 Err(e) => {
                     if self.pos != 0 {
                         self.owner.poisoned = true;
-                        return Poll::Ready(Err(e));
                     }
+                    return Poll::Ready(Err(e));
                 }
             }
         }
